@@ -1,0 +1,20 @@
+//go:build verif
+
+// Machine-checked contracts for package flows/definition (comment-only; read by /verif/gocv).
+
+package definition
+
+// a translation counts only if it is non-empty and not the editor's [""] placeholder
+//@ pred nonEmptyTr(t []string) := len(t) > 0 && !(len(t) == 1 && t[0] == "")
+//@ pred hasTr(l localization, lang i18n.Language, item uuids.UUID, prop string) := in(lang, l) && in(item, l[lang]) && in(prop, l[lang][item]) && nonEmptyTr(l[lang][item][prop])
+
+//@ func languageTranslation.getTextArray
+//@   nopanic
+//@   ensures [hit] (in(uuid, t) && in(property, t[uuid]) && nonEmptyTr(t[uuid][property])) ==> result == t[uuid][property]
+//@   ensures [miss] !(in(uuid, t) && in(property, t[uuid]) && nonEmptyTr(t[uuid][property])) ==> result == nil
+
+//@ func localization.GetItemTranslation
+//@   nopanic
+//@   assigns nothing
+//@   ensures [hit] hasTr(l, lang, itemUUID, property) ==> result == l[lang][itemUUID][property]
+//@   ensures [miss] !hasTr(l, lang, itemUUID, property) ==> result == nil
